@@ -22,7 +22,8 @@ from menpo.transform.base.alignment import Alignment
 from menpo.transform.piecewiseaffine import PiecewiseAffine
 
 KINDS = gen.HOMOG_KINDS + gen.ALIGN_KINDS + ["TransformChain", "ThinPlateSplines",
-                                              "PiecewiseAffine", "WithDims"]
+                                              "PiecewiseAffine", "WithDims",
+                                              "IntHomogeneous", "IntAffine", "IntSimilarity"]
 POOL = 8
 TOL = 1e-6
 
@@ -99,7 +100,7 @@ class Compose(Machine):
                        "ladder_affine_family", "chain_fallback", "inplace_accepted",
                        "inplace_rejected", "alignment_operand", "alignment_inplace_target", "self_composition",
                        "inplace_on_result_then_operands_probed", "decompose_recompose", "pwa_in_domain_law",
-                       "chain_inplace", "from_vector_inplace")
+                       "chain_inplace", "from_vector_inplace", "integer_dtype_parameters")
 
     @classmethod
     def swarm(cls, rng, tier):
@@ -180,6 +181,28 @@ class Compose(Machine):
         d = self.d
         if kind in gen.HOMOG_KINDS:
             return Entry(gen.homog_transform(kind, seed, d), H=gen.homog_matrix(kind, seed, d))
+        if kind.startswith("Int"):
+            # parameters given as an integer ndarray (signed permutation x integer scale, integer translation)
+            g = rs(seed)
+            perm = g.permutation(d)
+            L = np.zeros((d, d), dtype=np.int64)
+            if kind == "IntSimilarity":
+                k = int(g.randint(1, 4))
+                for r_, c_ in enumerate(perm):
+                    L[r_, c_] = k * (1 if g.rand() < 0.5 else -1)
+            else:
+                for r_, c_ in enumerate(perm):
+                    L[r_, c_] = int(g.randint(1, 4)) * (1 if g.rand() < 0.5 else -1)
+                if kind != "IntSimilarity" and d > 1:
+                    L[0, perm[1]] += int(g.randint(0, 2))   # integer shear, still invertible (triangular in the permuted basis)
+            H = np.eye(d + 1, dtype=np.int64)
+            H[:d, :d] = L
+            H[:d, d] = g.randint(-4, 5, size=d)
+            if abs(np.linalg.det(H.astype(float))) < 0.5:
+                H[:d, :d] = np.eye(d, dtype=np.int64) * 2
+            cls_ = {"IntHomogeneous": Homogeneous, "IntAffine": Affine, "IntSimilarity": Similarity}[kind]
+            self.ctx.probe("integer_dtype_parameters")
+            return Entry(cls_(H.copy()), H=H.astype(float))
         if kind in gen.ALIGN_KINDS:
             src = gen.general_points(seed, 6, d)
             tgt = gen.target_for(kind, seed ^ 0x31, src, noise=0.02)
